@@ -119,6 +119,7 @@ func cmdCheck(args []string) int {
 	only := fs.String("only", "", "only functions whose name matches this regular expression")
 	verbose := fs.Bool("v", false, "verbose")
 	dump := fs.String("dump", "", "dump SMT of obligations whose name contains this to stdout")
+	onlyFiles := fs.String("onlyfiles", "", "comma-separated source file suffixes: only functions defined there (skips the count guard)")
 	counts := fs.String("counts", "/verif/spec/expected_counts.json", "expected obligation counts")
 	updateCounts := fs.Bool("update-counts", false, "rewrite expected counts for this property")
 	fs.Parse(args)
@@ -150,6 +151,22 @@ func cmdCheck(args []string) int {
 		}
 		if *only != "" && !onlyMatch(*only, k) {
 			continue
+		}
+		if *onlyFiles != "" {
+			// engineering aid (must-fail corpus): only the functions defined in the named source files; functions whose
+			// contract no longer binds stay in (a changed file may have lost them)
+			if fn, err := g.findFunc(ct); err == nil && fn.Pos().IsValid() {
+				file := g.fset.Position(fn.Pos()).Filename
+				keep := false
+				for _, f := range strings.Split(*onlyFiles, ",") {
+					if f != "" && strings.HasSuffix(file, f) {
+						keep = true
+					}
+				}
+				if !keep {
+					continue
+				}
+			}
 		}
 		cts = append(cts, ct)
 	}
@@ -272,7 +289,7 @@ func cmdCheck(args []string) int {
 		fmt.Println(l)
 	}
 	// count guard
-	guardMsg := checkCounts(*counts, *prop, obls, *updateCounts, *only != "")
+	guardMsg := checkCounts(*counts, *prop, obls, *updateCounts, *only != "" || *onlyFiles != "")
 	if guardMsg != "" {
 		violations++
 		path := writeReplay(*replayDir, *prop, "count-guard", map[string]interface{}{"obligation": "count-guard", "reason": guardMsg})
